@@ -4,6 +4,7 @@ package main
 // GetSortedValues(Func) sorts a copy.
 
 import (
+	"cmp"
 	"fmt"
 	"reflect"
 
@@ -207,43 +208,48 @@ func sortedValuesCheck[T comparable](obj any, opts CanonOpts, cmp func(a, b T) i
 	if v := check("GetSortedValuesFunc", containers.GetSortedValuesFunc(c, cmp), vals); v != nil {
 		return v
 	}
-	if ci, ok := obj.(containers.Container[int]); ok {
-		iv := ci.Values()
-		got := containers.GetSortedValues(ci)
-		if !sameMultiset(got, iv) {
-			return viol(p, "mismatch", "GetSortedValues(%s) = %v is not a permutation of Values() = %v", name, got, iv)
+	for _, f := range []func() (bool, *Viol){
+		func() (bool, *Viol) { return sortedOrderedCheck[int](obj, opts, before, name, st) },
+		func() (bool, *Viol) { return sortedOrderedCheck[Val](obj, opts, before, name, st) },
+		func() (bool, *Viol) { return sortedOrderedCheck[string](obj, opts, before, name, st) },
+		func() (bool, *Viol) { return sortedOrderedCheck[int8](obj, opts, before, name, st) },
+		func() (bool, *Viol) { return sortedOrderedCheck[uint8](obj, opts, before, name, st) },
+		func() (bool, *Viol) { return sortedOrderedCheck[int64](obj, opts, before, name, st) },
+		func() (bool, *Viol) { return sortedOrderedCheck[uint64](obj, opts, before, name, st) },
+	} {
+		if ok, v := f(); ok {
+			return v
 		}
-		for i := 1; i < len(got); i++ {
-			if got[i-1] > got[i] {
-				return viol(p, "mismatch", "GetSortedValues(%s) = %v is not sorted", name, got)
-			}
-		}
-		if after := Canon(opts, obj); after != before {
-			return viol(tag("C16", "C18"), "invariant", "GetSortedValues(%s) altered the container: %s -> %s", name, clip(before, 300), clip(after, 300))
-		}
-		zeroPoison(got)
-		if after := Canon(opts, obj); after != before {
-			return viol(p, "invariant", "writing to the slice returned by GetSortedValues(%s) changed the container", name)
-		}
-		st.Nested["sorted_values_calls"]++
-	}
-	if cv, ok := obj.(containers.Container[Val]); ok {
-		iv := cv.Values()
-		got := containers.GetSortedValues(cv)
-		if !sameMultiset(got, iv) {
-			return viol(p, "mismatch", "GetSortedValues(%s) = %v is not a permutation of Values() = %v", name, got, iv)
-		}
-		for i := 1; i < len(got); i++ {
-			if got[i-1] > got[i] {
-				return viol(p, "mismatch", "GetSortedValues(%s) = %v is not sorted", name, got)
-			}
-		}
-		if after := Canon(opts, obj); after != before {
-			return viol(tag("C16", "C18"), "invariant", "GetSortedValues(%s) altered the container", name)
-		}
-		st.Nested["sorted_values_calls"]++
 	}
 	return nil
+}
+
+// sortedOrderedCheck: containers.GetSortedValues on a container of an ordered element type E.
+func sortedOrderedCheck[E cmp.Ordered](obj any, opts CanonOpts, before, name string, st *Stats) (bool, *Viol) {
+	p := tag("C16")
+	ci, ok := obj.(containers.Container[E])
+	if !ok {
+		return false, nil
+	}
+	iv := ci.Values()
+	got := containers.GetSortedValues(ci)
+	if !sameMultiset(got, iv) {
+		return true, viol(p, "mismatch", "GetSortedValues(%s) = %v is not a permutation of Values() = %v", name, got, iv)
+	}
+	for i := 1; i < len(got); i++ {
+		if got[i-1] > got[i] {
+			return true, viol(p, "mismatch", "GetSortedValues(%s) = %v is not sorted", name, got)
+		}
+	}
+	if after := Canon(opts, obj); after != before {
+		return true, viol(tag("C16", "C18"), "invariant", "GetSortedValues(%s) altered the container: %s -> %s", name, clip(before, 300), clip(after, 300))
+	}
+	zeroPoison(got)
+	if after := Canon(opts, obj); after != before {
+		return true, viol(p, "invariant", "writing to the slice returned by GetSortedValues(%s) changed the container", name)
+	}
+	st.Nested["sorted_values_calls"]++
+	return true, nil
 }
 
 func (b *listBox[T]) CheckSorted(st *Stats) *Viol {
@@ -314,6 +320,14 @@ func anyCmp(x, y any) int {
 		return a.ID - b.ID
 	case OV:
 		return ovCmp(a, y.(OV))
+	case int8:
+		return cmp.Compare(a, y.(int8))
+	case uint8:
+		return cmp.Compare(a, y.(uint8))
+	case int64:
+		return cmp.Compare(a, y.(int64))
+	case uint64:
+		return cmp.Compare(a, y.(uint64))
 	case HX:
 		b := y.(HX)
 		if a.P != b.P {
